@@ -158,15 +158,36 @@ Proof.
     assert (H0 : (0 <=? snd n) && (snd n <=? max) = false) by lia. rewrite H0. exists ln'. reflexivity.
 Qed.
 
-Lemma m_atom_spec n r ln : ws_ok (fst n) = true -> 0 <= snd n -> delim r ->
-  spec2 (atom_in n) (m_atom (amk (r_num n ++ r) ln)) (snd n) r.
+(* the reader with a configured atom limit vm (setMaxVar): matchAtom accepts exactly 1..vm *)
+Lemma m_atom_v_spec vm n r ln : vm <= INT64_MAX -> ws_ok (fst n) = true -> 0 <= snd n -> delim r ->
+  spec2 (ratom_in vm n) (m_atom_v vm (amk (r_num n ++ r) ln)) (snd n) r.
 Proof.
-  intros Hw Hv Hr. unfold r_num, m_atom, atom_in. rewrite <- app_assoc.
+  intros Hvm Hw Hv Hr. unfold r_num, m_atom_v, ratom_in. rewrite <- app_assoc.
   destruct (match_int_spec (fst n) (snd n) r ln Hw Hv Hr) as [ln' E]. rewrite E.
-  change sm_varMax with atomMax. change atomMin with 1.
-  destruct ((1 <=? snd n) && (snd n <=? atomMax)) eqn:Hin; cbn.
-  - destruct (Z.leb_spec (snd n) INT64_MAX); [|unfold atomMax, INT64_MAX in *; lia].
+  change atomMin with 1.
+  destruct ((1 <=? snd n) && (snd n <=? vm)) eqn:Hin; cbn.
+  - destruct (Z.leb_spec (snd n) INT64_MAX); [|lia].
     rewrite Hin. exists ln'. reflexivity.
   - destruct (snd n <=? INT64_MAX); [|exists ln'; reflexivity].
     rewrite Hin. exists ln'. reflexivity.
 Qed.
+
+Lemma atomMax_le_int64 : atomMax <= INT64_MAX. Proof. unfold atomMax, INT64_MAX. lia. Qed.
+
+(* the functions / range conditions without a limit are the instance vm = sm_varMax (the constructor's default), BY CONVERSION *)
+Lemma m_atom_default : m_atom = m_atom_v sm_varMax. Proof. reflexivity. Qed.
+Lemma m_body_default : m_body = m_body_v sm_varMax. Proof. reflexivity. Qed.
+Lemma m_sum_default : m_sum = m_sum_v sm_varMax. Proof. reflexivity. Qed.
+Lemma read_rule_default : read_rule = read_rule_v sm_varMax. Proof. reflexivity. Qed.
+Lemma read_rules_default : read_rules = read_rules_v sm_varMax. Proof. reflexivity. Qed.
+Lemma do_parse_default : do_parse = do_parse_v sm_varMax. Proof. reflexivity. Qed.
+Lemma parse_steps_default : parse_steps = parse_steps_v sm_varMax. Proof. reflexivity. Qed.
+Lemma read_smodels_default : read_smodels = read_smodels_v sm_varMax. Proof. reflexivity. Qed.
+Lemma atom_in_default : atom_in = ratom_in sm_varMax. Proof. reflexivity. Qed.
+Lemma rule_in_default : rule_in = rule_in_v sm_varMax. Proof. reflexivity. Qed.
+Lemma step_in_default : step_in = step_in_v sm_varMax. Proof. reflexivity. Qed.
+Lemma in_range_default : in_range = in_range_v sm_varMax. Proof. reflexivity. Qed.
+
+Lemma m_atom_spec n r ln : ws_ok (fst n) = true -> 0 <= snd n -> delim r ->
+  spec2 (atom_in n) (m_atom (amk (r_num n ++ r) ln)) (snd n) r.
+Proof. exact (m_atom_v_spec sm_varMax n r ln atomMax_le_int64). Qed.
